@@ -964,7 +964,7 @@ class ICalendarFile(File):
                         if value is None:
                             continue
                         if len(segments) == 1:
-                            yield value.to_ical()
+                            yield _index_value(value)
                         elif segments[1].startswith("A="):
                             # Parameter value, as ParameterFilter.index_keys()
                             # asks for it ("…/P=NAME/A=PARAM").
@@ -978,6 +978,18 @@ class ICalendarFile(File):
                             raise AssertionError(f"segments: {segments!r}")
             else:
                 raise AssertionError(f"segments: {segments!r}")
+
+
+def _index_value(value) -> bytes:
+    """Serialize a property value for the index.
+
+    Parameters are not kept in the index, so a date-time with a TZID would be
+    read back as a floating time; store it in UTC instead.
+    """
+    dt = getattr(value, "dt", None)
+    if isinstance(dt, datetime) and dt.tzinfo is not None:
+        return vDatetime(dt.astimezone(ZoneInfo("UTC"))).to_ical()
+    return value.to_ical()
 
 
 def as_tz_aware_ts(dt, default_timezone: Union[str, timezone]) -> datetime:
